@@ -18,6 +18,7 @@ def main(argv=None):
     if tier not in ("quick", "thorough"):
         tier = a.tier
     seed = a.seed if a.seed is not None else int(os.environ.get("VERIF_SEED", "0") or 0)
+    os.environ["VERIF_SEED"] = str(seed)  # (workers derive the per-case seed of numpy's global generator from it)
     if a.replay:
         return harness.replay(a.property, a.replay)
     return harness.run_property(a.property, tier, seed, workers=a.workers)
